@@ -129,6 +129,16 @@ def _parsable_items(item_class, fallback_class):
         from cryptoparser.tls.grease import TlsInvalidTypeTwoByte
         return [item_class(TlsVersion.TLS1_2), item_class(TlsVersion.TLS1_3), item_class(TlsVersion.TLS1),
                 TlsInvalidTypeTwoByte(0x0a0a), TlsInvalidTypeTwoByte(0x7a7a)]
+    if name == 'SignedCertificateTimestamp':
+        import datetime
+        from cryptodatahub.common.stores import CertificateTransparencyLog
+        from cryptodatahub.tls.algorithm import TlsSignatureAndHashAlgorithm
+        from cryptoparser.common.x509 import CtExtensions, CtVersion
+        logs = list(CertificateTransparencyLog)
+        alg = list(TlsSignatureAndHashAlgorithm)[0]
+        when = datetime.datetime(2020, 1, 2, 3, 4, 5)
+        return [item_class(list(CtVersion)[0], logs[i].value.log_id, when, CtExtensions([]), alg, sig)
+                for i, sig in enumerate([[], [1], [1, 2, 3], list(range(10))])]
     if name == 'HttpHeaderFieldParsedVariant':
         return [fallback_class('X-A', ''), fallback_class('X-A', 'b'), fallback_class('X-Long', 'value'),
                 fallback_class('Y', 'z' * 10)]
@@ -310,6 +320,8 @@ class Exec(object):
         return '[{}] {}'.format(','.join(str(t) for t in self._tags(list(vec))), vec._items_size)  # pylint: disable=protected-access
 
     def _bad(self, key, msg):
+        if any(k == key for k, _ in self.findings):
+            return      # one report per kind of failure and history
         self.findings.append((key, '{}{}: {}'.format(self.base_cls.__name__,
                                                      ' bounds {}'.format(self.case['bounds']) if self.case.get('bounds') else '', msg)))
 
@@ -865,7 +877,11 @@ def _process(run, cases, driver_ok, pool=None, check_compose=True, label='random
         if acc and refu:
             run.note_nontrivial((case['cls'], str(case['bounds']), str(case['init']), str(case['ops'])))
         for key, message in findings:
-            run.finding(key, message, case)
+            run.count('findings', '{} {}'.format(key, case['cls'].split(':')[1]))
+            seen = run.__dict__.setdefault('_c12_seen', set())
+            if (key, case['cls']) not in seen:      # one report per kind of failure and class
+                seen.add((key, case['cls']))
+                run.finding(key, message, case)
         if model_line is not None:
             lines.append(model_line)
             idx.append(i)
